@@ -75,7 +75,7 @@ func (s *c02State) eligible(v *sim.View, from string) []*sim.Out {
 		}
 	}
 	var e []*sim.Out
-	for _, o := range v.Outs {
+	for _, o := range v.SortedOuts() {
 		if o.Spent || !o.HasHash || !s.k.Owned[o.Hash] || o.Class != sim.ClassStd || o.Value <= 0 || !v.Mature(o) || s.reserved[o.OP] {
 			continue
 		}
@@ -575,7 +575,7 @@ func c02Request(t *core.T, s *c02State, v *sim.View) *c02Req {
 	case "manual":
 		// explicit inputs: mostly own coins (any class, any maturity), sometimes foreign / spent ones
 		var own []*sim.Out
-		for _, o := range v.Outs {
+		for _, o := range v.SortedOuts() {
 			if !o.Spent && o.HasHash && k.Owned[o.Hash] && o.Value > 0 {
 				own = append(own, o)
 			}
@@ -609,7 +609,7 @@ func c02Request(t *core.T, s *c02State, v *sim.View) *c02Req {
 		}
 		if t.R.Chance(10) {
 			// an input that is not ours
-			for _, o := range v.Outs {
+			for _, o := range v.SortedOuts() {
 				if !o.Spent && o.HasHash && !k.Owned[o.Hash] {
 					r.Inputs = append(r.Inputs, o.OP)
 					break
@@ -659,7 +659,7 @@ func c02BuildCoins(t *core.T, wd *sim.World, k *sim.WalletKeys, shape string) {
 	}
 	v, _ := sim.ViewOfChain(wd.N.BestChain())
 	var funds []*sim.Out
-	for _, o := range v.Outs {
+	for _, o := range v.SortedOuts() {
 		if o.Hash == str && !o.Spent && v.Mature(o) {
 			funds = append(funds, o)
 		}
